@@ -330,8 +330,8 @@ func exportDag(d *Dag, k int) interface{} {
 func init() {
 	register(&PropDef{
 		ID: "C03", Level: "exploration", Engine: "dagcheck",
-		Rule: "one case = one seeded synthetic fork-free DAG (n=1..7 creators, 30-400 events, private chains, first events without other-parent, repeated other-parents; every fourth DAG is a split-view DAG found by a workload search for fame elections that last into a coin round, every eighth comes from a small corpus of fixed shapes (long fame election over a coin round with a late decider; seven unevenly active validators with a straggling witness) with relabelled creators and fresh keys, every eighth is a 7-10 creator DAG with uneven activity found by a workload search for moments at which a round has more than a supermajority of famous witnesses and one still open) executed by a reference real Hashgraph (generation order, in-memory, consensus after every event) and by ~14 variant executions (random linear extensions, one creator's events as late as possible, the ancestry of a random event first, a random event and its descendants last, creation-order prefixes without the last 1..13 events, fresh process state, Badger, cache sizes from the measured in-flight bound W, consensus batchings 2/5/17/all, random downward-closed sub-DAGs) that must give identical per-event round/witness/Lamport/fame/round-received and identical blocks (prefix for sub-DAGs); non-trivial: the reference produced >=3 blocks; distinct DAGs by (seed,index,last event hash)",
-		Assumptions: []string{"static validator set", "a variant that ends in a store-miss error with a cache below the default or with delayed consensus passes is outside the supported range and dropped (counted), only differing outputs are violations", "in-memory variants are never run with a cache below the event count"},
+		Rule:          "one case = one seeded synthetic fork-free DAG (n=1..7 creators, 30-400 events, private chains, first events without other-parent, repeated other-parents; every fourth DAG is a split-view DAG found by a workload search for fame elections that last into a coin round, every eighth comes from a small corpus of fixed shapes (long fame election over a coin round with a late decider; seven unevenly active validators with a straggling witness) with relabelled creators and fresh keys, every eighth is a 7-10 creator DAG with uneven activity found by a workload search for moments at which a round has more than a supermajority of famous witnesses and one still open) executed by a reference real Hashgraph (generation order, in-memory, consensus after every event) and by ~14 variant executions (random linear extensions, one creator's events as late as possible, the ancestry of a random event first, a random event and its descendants last, creation-order prefixes without the last 1..13 events, fresh process state, Badger, cache sizes from the measured in-flight bound W, consensus batchings 2/5/17/all, random downward-closed sub-DAGs) that must give identical per-event round/witness/Lamport/fame/round-received and identical blocks (prefix for sub-DAGs); non-trivial: the reference produced >=3 blocks; distinct DAGs by (seed,index,last event hash)",
+		Assumptions:   []string{"static validator set", "a variant that ends in a store-miss error with a cache below the default or with delayed consensus passes is outside the supported range and dropped (counted), only differing outputs are violations", "in-memory variants are never run with a cache below the event count"},
 		MinNontrivial: 8,
 		Cases: func(tier string, seed int64) []CaseSpec {
 			cs := dagCases(tier, seed, 40, 600)
@@ -357,7 +357,7 @@ func init() {
 			}
 			return cs
 		},
-		Run: runC03,
+		Run:            runC03,
 		PerCaseTimeout: 15 * time.Minute,
 	})
 }
